@@ -26,6 +26,9 @@ def lit(t, v):
 
 def num(v):
     """a decimal literal as the language types it: INTEGER, LONG (no suffix form beyond)"""
+    if v == -2147483648:
+        # 2147483648 is not a LONG literal: write the minimum as -2147483647 - 1
+        return bin_("-", lit("L", -2147483647), lit("I", 1))
     a = abs(v)
     t = "I" if a <= 32767 else "L"
     return lit(t, v)
@@ -227,3 +230,8 @@ def typedef(n, fields):
 
 def dimspec(lo, hi, nolo=False):
     return {"lo": num(lo), "hi": num(hi), "nolo": nolo}
+
+
+def flit(t, w, f, neg=False):
+    """fractional constant +-(w + f/10), f in 1..9 except 5"""
+    return {"k": "flit", "t": t, "w": w, "f": f, "neg": neg}
